@@ -7,10 +7,10 @@ KindsAt(pos) ==
   CASE pos = "rootref"  -> SigBreak \cup {"strip", "dropds", "swapds"}
     [] pos = "referral" -> SigBreak \cup {"strip", "dropds", "swapds", "dropproof", "foreignproof"}
     [] pos = "dnskey"   -> SigBreak \cup {"strip", "clonetag", "roguekey"}
-    [] pos = "answer"   -> SigBreak \cup {"labels", "notyet", "strip", "dropproof", "foreignproof", "inject", "roguesig", "fakedname"}
+    [] pos = "answer"   -> SigBreak \cup {"labels", "notyet", "strip", "dropproof", "foreignproof", "inject", "roguesig", "fakedname", "foreigndeny"}
 Untouched == [pos \in Positions |-> "none"]
 Single == {[Untouched EXCEPT ![pos] = k] : pos \in Positions, k \in SigBreak \cup {"strip", "dropds", "swapds", "dropproof",
-              "foreignproof", "clonetag", "labels", "notyet", "inject", "roguekey", "roguesig", "fakedname"}}
+              "foreignproof", "clonetag", "labels", "notyet", "inject", "roguekey", "roguesig", "fakedname", "foreigndeny"}}
 SingleOK == {t \in Single : \A pos \in Positions : t[pos] = "none" \/ t[pos] \in KindsAt(pos)}
 MCTampers == {Untouched} \cup SingleOK
 \* pairs: one tampering at each of two different positions
